@@ -539,10 +539,12 @@ func runJoinProperty(c *Ctx, id string) {
 		r.Doc("J4", "buffer typestate", 1)
 		r.Doc("J5", "non-empty sends; forward only len >= JoinSize", 2)
 		r.Doc("J7", "unite: fit facts at ingest and forward", 1)
+		r.Doc("J1", "each received slice handed to the accept function exactly once; end of input is recognised by the closed flag only (an empty or nil slice is data)", 2)
 		for _, jr := range jrs {
 			if !jr.unite {
 				continue
 			}
+			checkJ1(c, jr)
 			checkJ2(c, jr)
 			checkJ34(c, jr)
 			checkJ5(c, jr)
